@@ -47,13 +47,56 @@ def run_case(case, root, cap=90.0):
     seen_codes = []
     real_cs = b.client._convert_status
 
+    cs_events = []  # (request id, status code, exception object raised by _convert_status or None)
+
     def cs(msg):
         rem = msg.get_remainder()
-        if len(rem) >= 4:
-            seen_codes.append(int.from_bytes(rem[:4], "big"))
-        return real_cs(msg)
+        code = int.from_bytes(rem[:4], "big") if len(rem) >= 4 else None
+        rid = int.from_bytes(msg.get_so_far()[:4], "big")
+        if code is not None:
+            seen_codes.append(code)
+        try:
+            r = real_cs(msg)
+        except BaseException as e:
+            cs_events.append((rid, code, e))
+            raise
+        cs_events.append((rid, code, None))
+        return r
 
     b.client._convert_status = cs
+    # fault plan for the CLOSE of the handle (server side, instance wrapper on SFTPServer._process):
+    #   "status:<code>"      CLOSE is answered with that status (the handle is closed all the same)
+    #   "drop_at_close"      the server drops the connection instead of answering CLOSE
+    #   "drop_before_close"  the server drops the connection right after answering the last WRITE
+    cplan = case.get("close") or "ok"
+    close_seen = []
+    if cplan != "ok":
+        srv = b.server
+        real_process = srv._process
+        nwrites = [0]
+
+        def process(t, request_number, msg):
+            if t == 4 and cplan.startswith("status:"):  # CMD_CLOSE
+                close_seen.append(request_number)
+                handle = msg.get_binary()
+                if handle in srv.file_table:
+                    srv.file_table[handle].close()
+                    del srv.file_table[handle]
+                srv._send_status(request_number, int(cplan.split(":")[1]))
+                return
+            if t == 4 and cplan == "drop_at_close":
+                close_seen.append(request_number)
+                b.wire.server_end.close()
+                return
+            r = real_process(t, request_number, msg)
+            if t == 6 and cplan == "drop_before_close":  # CMD_WRITE
+                nwrites[0] += 1
+                if nwrites[0] == case["nwrites"]:
+                    close_seen.append(-1)
+                    b.wire.server_end.close()
+            return r
+
+        srv._process = process
     cb_calls = []
     cb = (lambda done, total: cb_calls.append((done, total))) if case.get("callback") else None
     box = dict(done=False, exc=None, ret=None, sink=None)
@@ -96,6 +139,11 @@ def run_case(case, root, cap=90.0):
 
             e = box["exc"]
             out.update(outcome="raised", exc=type(e).__name__, exc_text=str(e)[:100], exc_sig=core.exc_signature(e))
+            chain, x = [], e
+            while x is not None and len(chain) < 10:
+                chain.append(x)
+                x = x.__cause__ or x.__context__
+            box["chain"] = chain
         else:
             if upload:
                 try:
@@ -113,6 +161,17 @@ def run_case(case, root, cap=90.0):
             if not exact and dest is not None:
                 out["first_difference_at"] = sftpread.first_diff(dest, data)
                 out["dest_is_prefix"] = data.startswith(dest)
+    if fault and fault[0] == "write":
+        # which request carried the rejected write, did the client look at its status, and is the
+        # exception that status produced the one (or chained to the one) the caller received?
+        with b.wire.plock:
+            wids = [p["id"] for p in b.wire.packets if p["dir"] == "c2s" and p["type"] == 6]
+        wid = wids[fault[1]] if fault[1] < len(wids) else None
+        werr = [ev[2] for ev in cs_events if ev[0] == wid and ev[2] is not None]
+        out["write_status_examined"] = any(ev[0] == wid for ev in cs_events)
+        out["write_error_reported"] = bool(werr) and any(w is c for w in werr for c in box.get("chain", []))
+    out["close_plan"] = cplan
+    out["close_fault_delivered"] = bool(close_seen)
     out.update(reads=script.reads, writes=script.writes, callback_calls=len(cb_calls),
                fault_status_examined=bool(fault) and fault[0] in ("read", "write") and fault[2] in seen_codes,
                fault_delivered=bool(fault) and _delivered(script, fault))
